@@ -189,7 +189,8 @@ Depth(ww, st) ==
     LET below(q) == IF Len(q) = 0 THEN 0 ELSE Len(q) - 1 IN
     CASE ww = "rsrc" -> st.depth
       [] ww = "nd"   -> below(st.stack)
-      [] ww \in {"outl", "toc"} -> IF st.pc = "nd" THEN below(st.nd.stack) ELSE below(st.stack)
+      [] ww \in {"outl", "toc"} -> IF st.pc = "nd" THEN below(st.nd.stack)
+                                   ELSE IF FirstWalkIterative THEN 0 ELSE below(st.stack)
       [] OTHER -> 0
 
 Init ==
